@@ -46,7 +46,9 @@ class SymCB(flow.DefaultCB):
     def __init__(self, classify: Callable[[ast.Call], tuple | None],
                  track: Callable[[ast.AST], str | None] | None = None,
                  on_store: Callable[[Sym, ast.stmt, str, Poly, 'SymCB'], Sym] | None = None,
-                 assume_fn: Callable[[Sym, ast.expr, bool], Sym | None] | None = None) -> None:
+                 assume_fn: Callable[[Sym, ast.expr, bool], Sym | None] | None = None,
+                 facts: Any = None) -> None:
+        self.facts = facts
         self.classify = classify
         self.track = track or (lambda n: n.id if isinstance(n, ast.Name) else None)
         self.on_store = on_store
@@ -56,7 +58,7 @@ class SymCB(flow.DefaultCB):
 
     def norm(self, s: Sym) -> Normalizer:
         atoms = self._atoms
-        return Normalizer(dict(s.env), lambda n: atoms.get(id(n)))
+        return Normalizer(dict(s.env), lambda n: atoms.get(id(n)), self.facts)
 
     def value(self, s: Sym, e: ast.AST) -> Poly:
         return self.norm(s).poly(e)
@@ -113,6 +115,10 @@ class SymCB(flow.DefaultCB):
         return s
 
     def assume(self, s: Sym, test: ast.expr, pol: bool) -> Sym | None:
+        if self.facts is not None:
+            dv = self.norm(s).decide(test)
+            if dv is not None and dv != pol:
+                return None
         if self.assume_fn is not None:
             return self.assume_fn(s, test, pol)
         return s
